@@ -77,7 +77,8 @@ def _repeatable(prog, rep):
             for n_ in ast.walk(f.node):
                 if isinstance(n_, ast.Call) and isinstance(n_.func, ast.Attribute) and n_.func.attr == "draw_sample":
                     (seedable if any(k.arg == "random_state" for k in n_.keywords) else unseeded).append((q, n_.lineno))
-    sites = [("virocon.contours.AndContour._compute", True), ("virocon.contours.OrContour._compute", True), ("virocon.contours.HighestDensityContour._check_grid", False)]
+    sites = [("virocon.contours.AndContour._compute", True), ("virocon.contours.OrContour._compute", True), ("virocon.contours.HighestDensityContour._check_grid", False),
+             ("virocon.plotting.plot_marginal_quantiles", False)]
     for q, has_sample in sites:
         fn = prog.func(q)
         rep.analysed(fn)
@@ -97,12 +98,18 @@ def _repeatable(prog, rep):
                     only_without_sample = any(l == ("isnone", ("attr", SELF, "sample")) or l == ("isnone", ("param", "sample")) or (l[0] == "isnone" and "sample" in str(l)) for l in lits)
                     if not (has_sample and only_without_sample):
                         calls.append(st)
+        if q.endswith("plot_marginal_quantiles") and not calls:
+            # the call sits in a helper class defined inside the function (the object handed to scipy's probplot)
+            for n_ in ast.walk(fn.node):
+                if isinstance(n_, ast.Call) and isinstance(n_.func, ast.Attribute) and n_.func.attr == "marginal_icdf" \
+                        and not any(k.arg == "random_state" and not (isinstance(k.value, ast.Constant) and k.value.value is None) for k in n_.keywords):
+                    calls.append(n_)
         bad = bool(calls) and bool(unseeded or seedable)
         rep.check(not bad, "C19.repeat", f"{q}:marginal_icdf", fn.where(calls[0]) if calls else fn.where(),
                   "no unseeded Monte-Carlo quantile enters the computation",
                   f"{'with a supplied sample ' if has_sample else ''}the computation still calls model.marginal_icdf (line(s) {[c.lineno for c in calls]}), which for a conditional variable is a "
                   f"quantile of a Monte-Carlo sample ({(unseeded or seedable)[:2]}) for which no random_state is given here: two computations from the same inputs differ")
-    rep.expect_min("C19.repeat", 3)
+    rep.expect_min("C19.repeat", 4)
 
 
 def run(prog, rep):
